@@ -134,6 +134,15 @@ func genResurrection(r *Rng, g *gmsg) []*Sx {
 		return nil
 	}
 	id := cands[r.Intn(len(cands))]
+	// half of the time the candidate with the largest number: elements beyond the first bitmap block are reset by the
+	// same rule as the others
+	if r.Chance(1, 2) {
+		for _, c := range cands {
+			if c > id {
+				id = c
+			}
+		}
+	}
 	node := g.nodes[id]
 	var ps []string
 	midPaths(node, fmt.Sprint(id), 0, &ps)
@@ -141,6 +150,25 @@ func genResurrection(r *Rng, g *gmsg) []*Sx {
 	ops := []*Sx{op("mti", X([]byte("0100"))), op("setval", I(id), genFullValue(r, node)), op("get")}
 	if r.Chance(1, 3) {
 		ops = append(ops, op("pack"))
+	}
+	if r.Chance(1, 4) {
+		// a successful Unpack of a message without the element: what it held must not come back when a sibling is
+		// populated afterwards (the F28 scenario, on every element number)
+		if without := packMsgVals(g, map[int]*Sx{}); without != nil {
+			var buildS func(n *gnode, segs []string) *Sx
+			buildS = func(n *gnode, segs []string) *Sx {
+				if len(segs) == 0 || !n.comp {
+					return genSparseValue(r, n)
+				}
+				c, ok := n.subs[segs[0]]
+				if !ok {
+					return genSparseValue(r, n)
+				}
+				return L(A("C"), L(L(X([]byte(segs[0])), buildS(c, segs[1:]))))
+			}
+			ops = append(ops, op("unpack", X(without)), op("get"), op("setval", I(id), buildS(node, strings.Split(path, ".")[1:])), op("get"), op("pack"), op("json"), op("get"))
+			return ops
+		}
 	}
 	if r.Chance(1, 3) {
 		// instead of unsetting: an Unpack that fails inside the element, then one that succeeds without it - nothing the
